@@ -68,10 +68,10 @@ func (w *racWorld) applyAll(res *racResult, h racHistory, k int, checkRoots bool
 		sn := snap([][]Hash{bd.delHashes, bd.proof.Proof}, [][]uint64{bd.proof.Targets})
 		var merr error
 		leaves := bd.leaves
-		if w.cfgs[i].NoRemember {
+		if w.cfgs[i].NoRemember || w.cfgs[i].RememberEven {
 			leaves = make([]Leaf, len(bd.leaves))
 			for j, l := range bd.leaves {
-				leaves[j] = Leaf{Hash: l.Hash, Remember: false}
+				leaves[j] = Leaf{Hash: l.Hash, Remember: w.cfgs[i].RememberEven && (w.spec.n+uint64(j))%2 == 0}
 			}
 			if len(bd.delHashes) > 0 {
 				var verr error
